@@ -6,6 +6,7 @@ import sys
 
 import vlib as v
 
+GATHER_PREDS = ["CloseAtMostOnce", "NoLeakAfterClose", "ReleasedOnRemoval", "NoHang"]
 PREDS = ["C08_NoLeak", "C08_CloseReturns", "C08_Unblocked", "C08_FinalPrompt", "C08_FinalClosedError", "C08_FinalCloseIdempotent",
          "C08_FinalNoTask", "C08_LastIsClosed", "C08_NothingAfterClosed", "C08_GracefulQuiet", "C08_CloseNoError"]
 
@@ -200,6 +201,22 @@ def binding_demo(work, tp, stats):
         print("WARNING: AgentCloseTrace binding demonstration: unexpected outcome for %s" % wrong)
 
 
+def gather_batch(work, verdict, stats):
+    """Close while gatherers of every kind (host, mux, server-reflexive, relay over UDP and TCP) are at every stage, with and
+    without the fault "Close of a socket returns an error": driven by the gather family's harness (scripted STUN/TURN fakes,
+    every acquired resource tallied), judged by GatherMon's predicates on what is left behind when Close has returned."""
+    import plan_gather as pg
+    gst = pg.new_stats()
+    work.copy_specs("gather")
+    gbin = v.build_harness(work, pkg="gather")
+    scs = pg.close_family_scenarios()
+    pg.judge_scenarios(work, gbin, verdict, gst, scs, ["CloseAtMostOnce", "NoLeakAfterClose", "ReleasedOnRemoval", "NoHang"], "c08g",
+                       pg.c09_features, conform=False, prop="C08")
+    stats["gatherer_close_scenarios"] = len(scs)
+    stats["gatherer_close_monitor_states"] = gst.get("monitor_states", 0)
+    stats["gatherer_close_hung"] = gst.get("hung_scenarios", 0)
+
+
 def c08(tier, seed):
     verdict = v.Verdict("C08", tier, seed)
     stats = {"states": 0, "transitions": 0, "traces_validated_against_impl": 0, "model_runs": [], "samples": []}
@@ -246,8 +263,9 @@ def c08(tier, seed):
         trace_validate(work, lines, stats)
         stats["samples"] = [{"scenario": scs[0], "events": [{k: e[k] for k in ("ev", "who", "err", "st")} for e in lines if e["sc"] == scs[0]["id"]][:40]}]
         model_check(work, stats, tier)
+        gather_batch(work, verdict, stats)
     verdict.coverage.update(stats)
-    verdict.coverage["predicates"] = PREDS
+    verdict.coverage["predicates"] = PREDS + ["GatherMon." + p for p in GATHER_PREDS]
     verdict.assumptions = ["bounded time is virtual-clock time of testing/synctest plus the bubble's deadlock verdict, not a wall-clock measurement",
                            "GracefulClose from inside a callback is documented as unsupported and is excluded",
                            "sockets are the simulated UDP mux sockets (a blocked WriteTo returns when the socket is closed)"]
